@@ -534,6 +534,15 @@ def run(ctx):
                         n_skip += 1
                         for (d, vals, allv, ty_, bbx) in conds:
                             d = strip_refs(d)
+                            if d.k == "discr" and strip_refs(d.a[0]).k == "call" and strip_refs(d.a[0]).a[0].endswith("Option<T> as std::ops::Try>::branch"):
+                                # `(last, first)?` / `a.zip(b)?`: Break (1) is the None of the operand, Continue (0) its Some; a zip is None iff a side is
+                                inner_ = strip_refs(strip_refs(d.a[0]).a[1][0])
+                                sides_ = [strip_refs(x_) for x_ in inner_.a[1]] if inner_.k == "call" and inner_.a[0].endswith("Option::<T>::zip") else [inner_]
+                                if all(x_.k == "call" and (_is_last_char_call(x_.a[0]) or x_.a[0].endswith("Iterator>::next")) for x_ in sides_):
+                                    is_break_ = vals == (1,) or (vals == "otherwise" and 1 not in allv)
+                                    if is_break_:
+                                        break           # skipped because the base or the suffix form is empty
+                                    continue
                             none_edge = d.k == "discr" and contains_call(d, lambda n: _is_last_char_call(n) or n.endswith("Iterator>::next")) is not None \
                                 and (vals == (0,) or (vals == "otherwise" and 0 not in allv))
                             some_edge = d.k == "discr" and contains_call(d, lambda n: _is_last_char_call(n) or n.endswith("Iterator>::next")) is not None \
